@@ -29,10 +29,17 @@ JudgeCacheLaws(B) ==
              ~ro => \A k \in 1..Len(B.res) : B.res[k].write = op(k).wbs * B.line_sz>>,
            <<"S:cache-overflows", \A k \in 1..Len(B.res) : B.res[k].overflows = op(k).over>>,
            <<"P:C17:tempfiles-removed", B.files_same = 1>> >>)
+\* two bindings of one tensor on different loop ranks and with different elements per line (listed inner rank first): the tensor's fills are the sum of the
+\* two bindings' fills, each at its own granularity - whatever the order of the binding list
+JudgeBuffet2(B) ==
+  LET fills(k) == BuffetFills(B.parts[k].rows, [mask |-> B.parts[k].mask, epl |-> B.parts[k].epl, ev |-> B.parts[k].evn, shape |-> B.shape, staged |-> FALSE])
+      exp == (fills(1) + fills(2)) * B.line_sz
+  IN Fails(<< <<"P:C17:buffet-fills", \A k \in 1..Len(B.res) : B.res[k].exc = "ok" /\ B.res[k].read = exp>>,
+              <<"P:C17:tempfiles-removed", B.files_same = 1>> >>)
 JudgeFilter(B) == Fails(<< <<"P:C17:filter", B.out_header_ok = 1 /\ B.out_rows = Filter(B.rows_r, B.rows_f)>>, <<"P:C17:tempfiles-removed", B.files_same = 1>> >>)
 JudgeCombine(B) == Fails(<< <<"P:C17:combine-stable", B.comb_header_ok = 1 /\ B.comb = Combine(B.rows_r, B.rows_w)>> >>)
 Judge(B) == IF B.exc # "ok" THEN <<"P:C17:no-exception">>
-            ELSE CASE B.kind = "buffet" -> JudgeBuffet(B) [] B.kind = "cache" -> JudgeCacheLaws(B) [] B.kind = "filter" -> JudgeFilter(B) [] B.kind = "combine" -> JudgeCombine(B)
+            ELSE CASE B.kind = "buffet" -> JudgeBuffet(B) [] B.kind = "cache" -> JudgeCacheLaws(B) [] B.kind = "buffet2" -> JudgeBuffet2(B) [] B.kind = "filter" -> JudgeFilter(B) [] B.kind = "combine" -> JudgeCombine(B)
 Init == i \in 1..Len(Log) /\ done = FALSE
 Next == ~done /\ done' = TRUE /\ UNCHANGED i
         /\ LET f == Judge(Log[i]) IN PrintT(ToJson([tid |-> Log[i].tid, fails |-> [k \in 1..Len(f) |-> <<1, f[k]>>], n |-> 1]))
